@@ -15,6 +15,9 @@ func genCase(r *kit.Rand, i int, tier string) (chain, stop, class string, n int)
 	if r.Chance(1, 5) {
 		return genFork(r)
 	}
+	if r.Chance(1, 10) {
+		return genBarrierAboveFailing(r)
+	}
 	thorough := tier == "thorough"
 	stop = []string{"task", "close", "delete", "task"}[r.Intn(4)]
 	// ---- chain
@@ -155,6 +158,30 @@ func genCase(r *kit.Rand, i int, tier string) (chain, stop, class string, n int)
 	}
 	if !thorough && n > 2600 && class == "gated" && !r.Chance(1, 3) {
 		n = 2600 - r.Intn(500)
+	}
+	return
+}
+
+// genBarrierAboveFailing: a barrier node with delete(TRUE) (idle or periodic, 1 ms: its emitter goroutine collects
+// DeleteGroup messages into the node's OWN input edge) above a gated httpPost above a failing node, against a backlog that
+// fills every edge: when the outputs are released the POSTs drain the pipeline slowly, the node below fails, httpPost fails,
+// and the barrier node fails while its input edge is full and its emitter is (often) blocked on it. The deferred
+// stopBarrierEmitter must not wait for that emitter for ever (defect repaired in /repo: about every second such case hung).
+// Sometimes the idle form without delete, and sometimes inside a fork next to a healthy branch.
+func genBarrierAboveFailing(r *kit.Rand) (chain, stop, class string, n int) {
+	b := kit.Pick(r, []string{"barrier:1", "barrier:1", "pbarrier:1", "pbarrier:1", "barriernd:1", "barrier:20"})
+	k := kit.Pick(r, []int{0, 0, 5, 40})
+	chain = fmt.Sprintf("from,%s,post,fail:%d,where", b, k)
+	if r.Chance(1, 4) {
+		chain = fmt.Sprintf("from;%s,post,fail:%d,where;post", b, k)
+	}
+	stop = kit.Pick(r, []string{"task", "task", "close", "delete"})
+	class = "gated"
+	n = 4*edgeCap + r.Range(0, 50)
+	if strings.Contains(chain, ";") {
+		// forks are stopped by Close only under a gate (the ingest finding is not predicted per branch)
+		stop = "close"
+		n = 3*edgeCap + r.Range(0, 50)
 	}
 	return
 }
